@@ -153,8 +153,13 @@ pub fn check_c03(tier: Tier) -> i32 {
     println!("C03 heap-sim + gc-sim: seed {} tier {} scenarios {} + {}", seed, tier.name(), nh, ng);
     let bh = orch::run_engine(&heap, seed, tier, nh, orch::WORKERS);
     let bg = orch::run_engine(&gc, seed, tier, ng, orch::WORKERS);
+    // the heap invariants also across retained lines (variables that live across evaluations)
+    let sess = orch::engine("session-heap").unwrap();
+    let ns = (sess.scenarios)(tier);
+    let bs = orch::run_engine(&sess, seed, tier, ns, orch::WORKERS);
     let mut harness_errors = bh.harness_errors.clone();
     harness_errors.extend(bg.harness_errors.clone());
+    harness_errors.extend(bs.harness_errors.clone());
     let mut selftest = 0;
     if bh.violations.is_empty() && bg.violations.is_empty() && harness_errors.is_empty() {
         for (e, b, n) in [(&heap, &bh, 32u64), (&gc, &bg, 256u64)] {
@@ -166,6 +171,7 @@ pub fn check_c03(tier: Tier) -> i32 {
     }
     let mut violations = bh.violations.clone();
     violations.extend(bg.violations.clone());
+    violations.extend(bs.violations.clone());
     let mut miri: Vec<Value> = Vec::new();
     if tier == Tier::Thorough {
         for (part, n) in [("gc", 64u64), ("programs", 16u64)] {
@@ -180,7 +186,8 @@ pub fn check_c03(tier: Tier) -> i32 {
     let verdict = orch::conclude("C03", violations, &harness_errors);
     let wall = t0.elapsed().as_secs_f64();
     let (ah, ag) = (&bh.acc, &bg.acc);
-    let runs = get(ah, "runs") + get(ag, "gc_sequences");
+    let asn = &bs.acc;
+    let runs = get(ah, "runs") + get(ag, "gc_sequences") + get(asn, "session_sessions");
     let nontrivial = ah.distinct.get("nontrivial_cases").map(|s| s.len()).unwrap_or(0)
         + ag.distinct.get("nontrivial_cases").map(|s| s.len()).unwrap_or(0);
     let mut samples = ah.samples.clone();
@@ -203,12 +210,14 @@ pub fn check_c03(tier: Tier) -> i32 {
         "coverage": {
             "evaluations": runs,
             "distinct_nontrivial": nontrivial,
-            "rule": "(a) heap-sim: seeded generator of heap-heavy programs (floats, strings, nested/aliased/cyclic arrays, functions, recursion, calls nested in array literals); each program is run under the shipped collection schedule with the plain allocator and under 3-5 seeded variants of (collection schedule: shipped / extra collections at seeded instruction boundaries / a collection at EVERY instruction boundary) x (allocator: plain / poison-and-park freed blocks / every realloc moves); monitored: every dereference hits a live shadow entry, no double release, after every collection reachable(true roots read from the VM) is a subset of alive and every survivor is unchanged; afterwards the outcome digest must equal the shipped+plain one. A run is non-trivial when at least one collection ran while a heap object was reachable; distinct = distinct event-log hash. (b) gc-sim: seeded operation sequences (<=60 ops, <=16 objects: allocate float/string/array, link/unlink element, add/drop root, collect with the roots split into 1-4 slices with duplicates and immediates, hand over to caller (untrace), caller releases, adopt an object made by another collector, drop the collector) against a reachability model; after every operation shadow alive set == model alive set exactly, managed list == model managed set, values intact. Non-trivial: at least one collection with more than one object.",
+            "rule": "(a) heap-sim: seeded generator of heap-heavy programs (floats, strings, nested/aliased/cyclic arrays, functions, recursion, calls nested in array literals); each program is run under the shipped collection schedule with the plain allocator and under 3-5 seeded variants of (collection schedule: shipped / extra collections at seeded instruction boundaries / a collection at EVERY instruction boundary) x (allocator: plain / poison-and-park freed blocks / every realloc moves); monitored: every dereference hits a live shadow entry, no double release, after every collection reachable(true roots read from the VM) is a subset of alive and every survivor is unchanged; afterwards the outcome digest must equal the shipped+plain one. A run is non-trivial when at least one collection ran while a heap object was reachable; distinct = distinct event-log hash. (c) session-heap: the directed and seeded random retained sessions of the C17 engine (one Compiler+VM kept across lines, failing lines, injected failures), judged here only by the heap invariants: a value reachable from a variable that lives across lines is never reclaimed, released twice or changed by a collection. (b) gc-sim: seeded operation sequences (<=60 ops, <=16 objects: allocate float/string/array, link/unlink element, add/drop root, collect with the roots split into 1-4 slices with duplicates and immediates, hand over to caller (untrace), caller releases, adopt an object made by another collector, drop the collector) against a reachability model; after every operation shadow alive set == model alive set exactly, managed list == model managed set, values intact. Non-trivial: at least one collection with more than one object.",
             "samples": samples,
             "exhaustive": false,
             "programs": get(ah, "programs"),
             "heap_sim_runs": get(ah, "runs"),
             "gc_sim_sequences": get(ag, "gc_sequences"),
+            "retained_sessions_judged_by_heap_invariants": get(asn, "session_sessions"),
+            "retained_session_lines": get(asn, "session_lines"),
             "gc_sim_operations": get(ag, "gc_operations"),
             "simulated_steps": get(ah, "sim_steps"),
             "runs_per_hour": (runs as f64 / wall * 3600.0) as u64,
@@ -235,8 +244,8 @@ pub fn check_c03(tier: Tier) -> i32 {
     });
     orch::write_evidence("C03", &ev);
     println!(
-        "C03: {} programs / {} runs / {} steps (heap-sim), {} sequences / {} ops / {} collections (gc-sim), {} distinct non-trivial, {} violation(s), {} known, {:.1}s",
-        get(ah, "programs"), get(ah, "runs"), get(ah, "sim_steps"), get(ag, "gc_sequences"), get(ag, "gc_operations"), get(ag, "gc_collections"),
+        "C03: {} programs / {} runs / {} steps (heap-sim), {} sequences / {} ops / {} collections (gc-sim), {} retained sessions (session-heap), {} distinct non-trivial, {} violation(s), {} known, {:.1}s",
+        get(ah, "programs"), get(ah, "runs"), get(ah, "sim_steps"), get(ag, "gc_sequences"), get(ag, "gc_operations"), get(ag, "gc_collections"), get(asn, "session_sessions"),
         nontrivial, verdict.reported, verdict.known, wall
     );
     verdict.exit
